@@ -2,6 +2,7 @@
 
 from __future__ import unicode_literals
 
+import itertools
 import os
 from importlib import import_module
 
@@ -578,6 +579,30 @@ def get_app_pending_mutations(app, evolution_labels=[], mutations=None,
             if app_sig.get_model_sig(old_model_sig.model_name) is None
         )
 
+        # Work out which model names belong to this database, following
+        # any chains of RenameModels from (or to) the models in either
+        # signature. A RenameModel for any other model (one routed to
+        # another database, which is in neither signature) can't be applied
+        # here and must be skipped like any other mutation for that model.
+        known_models = set(
+            model_sig.model_name
+            for model_sig in itertools.chain(old_app_sig.model_sigs,
+                                             app_sig.model_sigs)
+        )
+        rename_mutations = [
+            mutation
+            for mutation in mutations
+            if isinstance(mutation, RenameModel)
+        ]
+
+        for mutation in rename_mutations:
+            if mutation.old_model_name in known_models:
+                known_models.add(mutation.new_model_name)
+
+        for mutation in reversed(rename_mutations):
+            if mutation.new_model_name in known_models:
+                known_models.add(mutation.old_model_name)
+
         # We should now have a full list of which models changed. Filter
         # the list of mutations appropriately.
         #
@@ -589,7 +614,8 @@ def get_app_pending_mutations(app, evolution_labels=[], mutations=None,
             for mutation in mutations
             if (not hasattr(mutation, 'model_name') or
                 mutation.model_name in changed_models or
-                isinstance(mutation, RenameModel))
+                (isinstance(mutation, RenameModel) and
+                 mutation.old_model_name in known_models))
         ]
 
     return mutations
